@@ -420,6 +420,8 @@ pub mod split {
     //!  * an index-map entry is added only for keyframes that define the property (R1)
     //!  * the lookup before a frame returns (frame idx, frame idx) instead of (idx-1, idx) (R2)
     //!  * the eased lerp takes the easing of the END frame (R3)
+    //!  * the lookup uses the master index as frame index when the two tables have equal length (R2, S9-C01)
+    //!  * value_at narrows the override flag by comparing the position with a constant (R2, S9-C10)
     use mina_core::easing::{Easing, EasingFunction};
     use mina_core::interpolation::Lerp;
 
@@ -501,6 +503,8 @@ pub mod split {
                 return None;
             }
             let normalized_time = normalized_time.clamp(0.0, 1.0);
+            // control: the override flag narrowed by a threshold on the position (seed S9-C10)
+            let enable_start_override = enable_start_override && normalized_time < 0.5;
             let bounding_frames = self.get_bounding_frames(normalized_time, index_hint, enable_start_override)?;
             Some(ctl_interpolate(&bounding_frames, normalized_time))
         }
@@ -511,7 +515,12 @@ pub mod split {
             index_hint: usize,
             enable_start_override: bool,
         ) -> Option<[&CtlSplit<Value>; 2]> {
-            let index_at = *self.frame_index_map.get(index_hint)?;
+            // control: "dense" shortcut that uses the master index as frame index (seed S9-C01)
+            let index_at = if self.frames.len() == self.frame_index_map.len() {
+                index_hint
+            } else {
+                *self.frame_index_map.get(index_hint)?
+            };
             let frame_at = self.get_frame(index_at, enable_start_override)?;
             if normalized_time < frame_at.normalized_time {
                 if index_at > 0 {
